@@ -546,6 +546,15 @@ func (db *DB) loadIndexFromDataFiles(fileIds []uint32, nonMergeFileId uint32) er
 				if err == io.EOF {
 					break
 				}
+				// 最新数据文件末尾的不完整记录是进程崩溃或掉电时未完整落盘的最后一次追加
+				// 该记录从未被确认, 视为日志结尾并截断, 保证后续追加的记录可被正常读取
+				// 旧数据文件在切换前已持久化, 出现不完整记录只能是数据损坏
+				if err == datafile.ErrIncompleteChunk && fileId == db.activeFile.ID && reader.Offset() < dataFile.Size() {
+					if err := dataFile.Truncate(reader.Offset()); err != nil {
+						return err
+					}
+					break
+				}
 				return err
 			}
 			batchID := logRecord.BatchID
